@@ -680,6 +680,25 @@ def check(ctx):
     for t in triples:
         run_tree(("stmts", [t]), "ops=3", variants=("min", "full"))
 
+    # 2b. long chains: every binary operator folds to the LEFT however many operands the chain has (and evaluation of the
+    # min text agrees with the fully parenthesised one, where the grouping matters for the value: floats, `-`, `/`)
+    sys_limit = __import__("sys").getrecursionlimit()
+    for n_operands in [31, 32, 33, 34, 40, 48, 64, 65, 100] + ([36, 44, 128, 200] if not ctx.quick() else []):
+        for op in list(BIN_LEVEL):
+            leaves = [N_(rng.choice(["0.1", "1.5", "3", "7", "10000000000000000", "2.5"])) if op in "+-*" else N_(rng.choice(["2", "3", "1.5", "7"]))
+                      for _ in range(n_operands)]
+            if op == "^":
+                leaves = [N_("1.5")] + [N_(rng.choice(["1", "2"])) for _ in range(min(n_operands, 12) - 1)]
+            t = leaves[0]
+            for l in leaves[1:]:
+                t = ("bin", op, t, l)
+            try:
+                # (the fully parenthesised text of a longer chain nests deeper than the host's stack allows: min text only there)
+                run_tree(("stmts", [t]), "chain/%s" % op, variants=("min", "full") if n_operands <= 48 else ("min",),
+                         evaluate=op in "+-*/" and n_operands <= 48)
+            except RecursionError:
+                ctx.notes.append("chain of %d x %r beyond the harness's own recursion limit" % (n_operands, op))
+
     # 3. random programs
     maxd = ctx.n(6, 9)
     for _ in range(ctx.n(700, 6000)):
